@@ -20,14 +20,15 @@ UNIVERSE = ['a', 'ab', 'abc', 'abcd', 'b', 'ba', 'abd']
 KNOWN_CLASS = 'shorter_value_not_recognised'
 
 MANIFEST = dict(
-    text=('Theorems of Props/C12.v on Model/BashSem.v (an interpreter of the emitted bash skeleton over the emitted tables): '
-          'C12_values_recognised / C12_partial_stops / C12_partial_offers -- on ANY within-word tables with glob-free literals in '
-          'decreasing length, the repaired matcher (variant Fixed: stop test only when completing and only for literals with a transition) '
-          'consumes a fully typed value exactly and ends matched, stays in front of a partially typed value and offers exactly the level-0 '
-          'literals extending the typed word; C12_chain_value_recognised / C12_chain_partial_offers -- end to end (run_from: rc, COMPREPLY, '
-          'log) on the tables the pipeline emits for cmd pre(v1|..|vn) next; with arbitrary prefix chains (Model/ChainTables.v, compared with '
-          'Rust\'s TABLES for every grammar of the family); C12_refuted_shorter_value -- the loop pinned in /repo returns 1 for `--opt=a` '
-          'with --opt=(a|abc|abcd) (known finding, repair in patches/). '
+    text=('Theorems of Props/C12.v on Model/BashSem.v (an interpreter of the emitted bash skeleton over the emitted tables; variant Repaired '
+          'mirrors /repo HEAD): C12_values_recognised / C12_partial_stops / C12_partial_offers -- on ANY within-word tables with the literal '
+          'array in decreasing length the matcher consumes a fully typed value exactly and ends matched whatever longer or shorter literals '
+          'exist (expected at that point or not), stays in front of a partially typed value and offers exactly the level-0 literals extending '
+          'the typed word; C12_chain_value_recognised / C12_chain_partial_offers -- end to end (run_from Repaired: rc, COMPREPLY, log) on the '
+          'tables the pipeline emits for cmd pre(v1|..|vn) next; with arbitrary prefix chains and arbitrary characters (Model/ChainTables.v, '
+          'compared with Rust\'s TABLES for every grammar of the family); C12_pinned_known_class / C12_pinned_outside_known / '
+          'C12_refuted_shorter_value -- the template before commit ac67eca refused `--opt=a` with --opt=(a|abc|abcd), exactly when some '
+          'literal of the array properly extends the value. '
           'BashSem is tied to the real script by T2 (real bash 5.2 vs extracted model on Rust\'s own tables: COMPREPLY, return code and '
           'probe log compared exactly), its bash primitives (glob matching, printf %q, read/echo filtering, sort, associative-array key '
           'order) are compared with real bash on generated inputs, the skeleton templates are hash-locked (T3), and real bash is judged '
